@@ -179,3 +179,78 @@ TMODELS[('Rec', 'Serializer', 'serialize_some')] = T_rec_some
 MODELS += [
     (r'<&*(?:bool|f64|f32|char|str|std::string::String|\(\)|[iu](?:8|16|32|64|128|size)) as ' + SER + r'Serialize>::serialize::<.*>', M_prim_serialize),
 ]
+
+
+# ------------------------------------------------------------------ Option<T>: serde's impls by contract
+def _opt_value(st, v):
+    while isinstance(v, Ptr):
+        v = st.deref(v)
+    return v
+
+
+def M_option_serialize(it, ctx, args, st):
+    """<Option<T> as Serialize>::serialize::<S>(&self, s): None -> s.serialize_none(); Some(v) -> s.serialize_some::<T>(&v)"""
+    t = strip_refs(ctx.self_ty)
+    T = t[2][0]
+    S = ctx.gargs[0]
+    opt = _opt_value(st, args[0])
+    import os
+    if os.environ.get('VERIF_DEBUG'):
+        print('option_serialize', ty_str(ctx.self_ty), ty_str(T), ty_str(S), ctx.fr.fn.name)
+    if not isinstance(opt, Enum):
+        raise Unsupported(f'Option::serialize of {opt!r:.80}')
+    for s2, some in fork_bool(it, st, it.variant_of(opt, 'Some')):
+        if some:
+            pl = it.payload(opt, 'Some').fields[0]
+            yield from it.call_trait(ctx.fr, S, 'serde::Serializer', 'serialize_some', [T], [args[1], s2.ref(pl)], s2)
+        else:
+            yield from it.call_trait(ctx.fr, S, 'serde::Serializer', 'serialize_none', [], [args[1]], s2)
+
+
+def M_ref_serialize(it, ctx, args, st):
+    """<&T as Serialize>::serialize = (**self).serialize"""
+    t = ctx.self_ty
+    inner = t[2] if t[0] == 'ref' else t
+    v = args[0]
+    yield from it.call_trait(ctx.fr, inner, 'serde::Serialize', 'serialize', [ctx.gargs[0]], [st.deref(v) if isinstance(v, Ptr) and isinstance(st.deref(v), Ptr) else v, args[1]], st)
+
+
+def M_option_deserialize(it, ctx, args, st):
+    """<Option<T> as Deserialize>::deserialize::<D>(d) = d.deserialize_option(OptionVisitor<T>)"""
+    t = ctx.self_ty
+    T = t[2][0]
+    D = ctx.gargs[0]
+    vis = Agg('OptionVisitor', (T,))
+    yield from it.call(ctx.fr, f'<{ty_str(D)} as serde::Deserializer>::deserialize_option::<OptionVisitor>', [args[0], vis], st)
+
+
+def option_visit(it, ctx, args, st):
+    """serde's OptionVisitor<T>: visit_none / visit_unit -> None; visit_some(d) -> T::deserialize(d).map(Some); anything else: invalid type"""
+    vis, meth = args[0], ctx.callee.method
+    T = vis.fields[0]
+    if meth in ('visit_none', 'visit_unit'):
+        yield st, it.ok(it.none)
+        return
+    if meth == 'visit_some':
+        D = ctx.gargs[0]
+        fr0 = type(ctx.fr)()
+        fr0.fn, fr0.locals, fr0.tenv, fr0.visits, fr0.depth = ctx.fr.fn, ctx.fr.locals, {}, {}, ctx.fr.depth
+        for s2, r in it.call(fr0, f'<{ty_str(T)} as serde::Deserialize>::deserialize::<{ty_str(D)}>', [args[1]], st):
+            if is_abnormal(r):
+                yield s2, r
+                continue
+            for s3, good in fork_bool(it, s2, it.variant_of(r, 'Ok')):
+                yield s3, (it.ok(it.some(it.payload(r, 'Ok').fields[0])) if good else it.err(it.payload(r, 'Err').fields[0]))
+        return
+    yield st, it.err(de_err('invalid_type', meth))
+
+
+for _m in ['visit_bool', 'visit_str', 'visit_string', 'visit_borrowed_str', 'visit_f32', 'visit_f64', 'visit_unit', 'visit_none', 'visit_some',
+           'visit_bytes', 'visit_byte_buf', 'visit_seq', 'visit_map', 'visit_char', 'visit_newtype_struct', 'visit_enum'] + \
+          [f'visit_{s}{w}' for s in 'iu' for w in (8, 16, 32, 64, 128)]:
+    TMODELS[('OptionVisitor', 'Visitor', _m)] = option_visit
+
+MODELS += [
+    (r'<&*std::option::Option<.*> as ' + SER + r'Serialize>::serialize::<.*>', M_option_serialize),
+    (r'<std::option::Option<.*> as ' + SER + r'Deserialize(<.*>)?>::deserialize::<.*>', M_option_deserialize),
+]
